@@ -9,6 +9,7 @@ import (
 
 	"verif/exact"
 	"verif/gen"
+	"verif/model"
 	"verif/run"
 )
 
@@ -263,4 +264,18 @@ func Permute(r *run.Rng, g geom.Geometry) geom.Geometry {
 		out[i] = ms[j]
 	}
 	return WithMembers(g, out)
+}
+
+// AnchorAtOrigin translates g (by integers when its ordinates are integers) so that one of its control
+// points, chosen by r, lies exactly at (0 0) — the XY that the zero value of a coordinate, an unset box
+// and an empty Point's payload all share. Empty geometries are returned unchanged.
+func AnchorAtOrigin(r *run.Rng, g geom.Geometry) geom.Geometry {
+	t, _ := model.FromGeom(g)
+	var pts [][2]float64
+	t.Map(func(c []float64, _ geom.CoordinatesType) { pts = append(pts, [2]float64{c[0], c[1]}) })
+	if len(pts) == 0 {
+		return g
+	}
+	p := pts[r.Intn(len(pts))]
+	return model.ToGeom(t.Map(func(c []float64, _ geom.CoordinatesType) { c[0] -= p[0]; c[1] -= p[1] }))
 }
